@@ -467,13 +467,16 @@ def catalog : Sk := .func
 open Sk in
 /-- engine.go `func (e *Engine) Begin(ctx, lock bool) (*Transaction, error)` -/
 def begin_ : Sk := .func
-  [ lock "e.mutex", deferUnlock "e.mutex",
+  [ -- nested-transaction check BEFORE the engine lock (fix 1490243): reading the session takes
+    -- s.mutex, which the session methods hold while they call into the engine
+    when (.flag "lock")
+      [ -- `ctx = ensureContext(ctx)`, `sess, ok := ctx.Value(..).(*Session)` dropped
+        when (.flag "ok")
+          [ call "sess.Transaction",                   -- takes s.mutex; e.mutex NOT held
+            when (.notNil "txn") [ ret .fmtErr ] ] ],
+    lock "e.mutex", deferUnlock "e.mutex",             -- (`verifAt(..)` / `defer verifAt(..)` ignored)
     when (.not .alive) [ ret (.named "ErrEngineClosed") ],
     when (.not (.flag "lock")) [ retc .ok ["NewTransaction"] ],
-    -- `ctx = ensureContext(ctx)`, `sess, ok := ctx.Value(..).(*Session)` dropped
-    when (.flag "ok")
-      [ call "sess.Transaction",                       -- takes s.mutex under e.mutex
-        when (.notNil "txn") [ ret .fmtErr ] ],
     unlock "e.mutex",
     acquire,                                           -- ok = e.token.Acquire(tombctx.Done(), 1min)
     lock "e.mutex",
